@@ -44,6 +44,7 @@ import (
 	httpEngine "github.com/nuts-foundation/nuts-node/http"
 	"github.com/nuts-foundation/nuts-node/http/client"
 	"github.com/nuts-foundation/nuts-node/jsonld"
+	"github.com/nuts-foundation/nuts-node/vcr/pe"
 	"github.com/sirupsen/logrus"
 	"github.com/spf13/pflag"
 )
@@ -64,6 +65,7 @@ type xOp struct {
 	Crypto  string   `json:"crypto,omitempty"`
 	SQL     bool     `json:"sql,omitempty"`
 	Dummy   bool     `json:"dummy,omitempty"`
+	IamMatrix bool   `json:"iammatrix,omitempty"` // sys: after start-up, call EVERY outbound method of the IAM client with every endpoint class
 	Cache   string   `json:"cache,omitempty"` // http.cache.maxbytes: "" = default, "0" = response cache off, or a size (an option unrelated to strict mode)
 	DummyName string `json:"dummyname,omitempty"` // spelling of the test-only means in auth.contractvalidators (dummy, Dummy, DUMMY, ...)
 	Allow   []string `json:"allow,omitempty"`     // ctx: jsonld.contexts.remoteallowlist in effect
@@ -295,6 +297,12 @@ func (s *xSock) tlsConfig() *tls.Config {
 	return &tls.Config{RootCAs: s.pool, ServerName: "example.com", MinVersion: tls.VersionTLS12}
 }
 
+// every outbound method of the IAM client × every endpoint class (symbolic ports: 1001/1002 TLS servers, 1003 plain HTTP)
+var xIamSites = []string{"ClientMetadata", "PresentationDefinition", "AuthorizationServerMetadata", "OpenIDConfiguration", "OpenIdCredentialIssuerMetadata",
+	"RequestObjectByGet", "RequestObjectByPost", "PostError", "PostAuthorizationResponse", "AccessToken", "AccessTokenDPoP", "VerifiableCredentials"}
+var xIamEndpoints = []string{"https://pub-verif.nl:1001/e", "http://pub-verif.nl:1003/e", "https://127.0.0.1:1001/e", "https://[::1]:1001/e", "https://localhost:1001/e",
+	"https://node.local:1001/e", "https://a.test:1001/e", "https://10.0.0.12:1002/e", "https://example.com:1001/e"}
+
 // ---------- executing one op
 
 type xRecordingRT struct{ n int }
@@ -425,6 +433,7 @@ func xExec(t *testing.T, op xOp, sock **xSock) (line string) {
 		}
 		// per-action probes on the configured node
 		dummy, remote, iamHTTP, iamIP, iamAll, iamVC := "?", "?", "?", "?", "?", "?"
+		iamMatrix := ""
 		sk := *sock
 		iamCall := func(a *auth.Auth, site string, endpoint string) error {
 			c, ctx := a.IAMClient(), context.Background()
@@ -446,6 +455,14 @@ func xExec(t *testing.T, op xOp, sock **xSock) (line string) {
 				_, err = c.PostError(ctx, oauth.OAuth2Error{Code: oauth.InvalidRequest}, endpoint, "state")
 			case "VerifiableCredentials":
 				_, err = c.VerifiableCredentials(ctx, endpoint, "token", "proof")
+			case "RequestObjectByPost":
+				_, err = c.RequestObjectByPost(ctx, endpoint, oauth.AuthorizationServerMetadata{})
+			case "PostAuthorizationResponse":
+				_, err = c.PostAuthorizationResponse(ctx, vc.VerifiablePresentation{}, pe.PresentationSubmission{}, endpoint, "state")
+			case "AccessToken":
+				_, err = c.AccessToken(ctx, "code", endpoint, "https://nuts.nl/callback", "subject", "client", "verifier", false)
+			case "AccessTokenDPoP":
+				_, err = c.AccessToken(ctx, "code", endpoint, "https://nuts.nl/callback", "subject", "client", "verifier", true)
 			}
 			return err
 		}
@@ -484,6 +501,21 @@ func xExec(t *testing.T, op xOp, sock **xSock) (line string) {
 					iamAll = "same"
 				}
 				iamVC = iamProbeSite(v, "VerifiableCredentials", "http://c.verif.test:1003/credential")
+				if op.IamMatrix {
+					var sb strings.Builder
+					for _, site := range xIamSites {
+						sb.WriteString(site + ":")
+						for _, ep := range xIamEndpoints {
+							r := iamProbeSite(v, site, ep)
+							if strings.HasPrefix(r, "other:") {
+								r = "nosend"
+							}
+							sb.WriteString(r + "/")
+						}
+						sb.WriteString(",")
+					}
+					iamMatrix = " iammatrix=" + sb.String()
+				}
 				_, err := v.ContractNotary().CreateSigningSession(services.CreateSessionRequest{SigningMeans: "dummy", Message: "not a contract"})
 				if err != nil && strings.Contains(err.Error(), "unknown signing means") {
 					dummy = "absent"
@@ -523,7 +555,7 @@ func xExec(t *testing.T, op xOp, sock **xSock) (line string) {
 			}
 		}
 		sk.mu.Unlock()
-		return fmt.Sprintf("sys ok dummy=%s remotectx=%s clientstrict=%v earlyclient=%s iamhttp=%s iamip=%s iamsites=%s iamvc=%s", dummy, remote, client.StrictMode, earlyOut, iamHTTP, iamIP, iamAll, iamVC)
+		return fmt.Sprintf("sys ok dummy=%s remotectx=%s clientstrict=%v earlyclient=%s iamhttp=%s iamip=%s iamsites=%s iamvc=%s%s", dummy, remote, client.StrictMode, earlyOut, iamHTTP, iamIP, iamAll, iamVC, iamMatrix)
 	case "do":
 		if *sock == nil {
 			*sock = xNewSock()
@@ -750,6 +782,12 @@ func xGenerate(seed int64, thorough bool) []xOp {
 		case 7:
 			op.Irma = "irma-demo"
 		}
+		ops = append(ops, op)
+	}
+	// the IAM client: every outbound method × every endpoint class, on a started strict and a started lenient node
+	for _, strict := range []bool{true, false} {
+		op := secure
+		op.StrictUnset, op.Strict, op.IamMatrix, op.Tag = false, strict, true, "iam-matrix"
 		ops = append(ops, op)
 	}
 	// an option that has nothing to do with strict mode — the size of the HTTP response cache — must not change any verdict
